@@ -26,7 +26,7 @@ chk("C03", "model_checking", "exhaustive append-a-byte tree and truncation grids
 
 chk("C05", "model_checking", "exhaustive enumeration of the counter arithmetic + explicit-state BFS of the real device against a reference acceptor",
     "(a) the real next_fcnt_down (hook wrapper) is evaluated for all 65536 wire values x every last value in windows around every class of boundary and a stride over the 32-bit range, against the u64 specification rule. (b) BFS over histories of whole uplink transactions on the real nb device; each delivers one frame of an alphabet of fresh / replayed / reordered / far-future / forged / wrong-epoch / oversized frames in RX1 or RX2, from sessions starting at epoch boundaries; a reference acceptor (independent codec + spec rule) decides, and response, remembered counter, delivered plaintext, no-double-accept and monotonicity are checked at every transition.",
-    "Trusted: refcodec/refcrypto, spec_next_fcnt in dev.rs. Window size limit taken from the RfConfig the device bound to the window (C10 checks that). Depth-bounded (3 quick / 4 thorough transactions).",
+    "Trusted: refcodec/refcrypto, spec_next_fcnt in dev.rs. Window size limit taken from the RfConfig the device bound to the window (C10 checks that). (c) the same alphabet on the async device in Class C (idle rxc_listen, receptions while waiting for RX1/RX2, per-window size limits with a fast uplink rate). Depth-bounded (4 transactions; 6 in the thorough tier).",
     "DESIGN.md §3 C05")
 chk("C06", "fault_enumeration", "explicit-state BFS with a radio fault at every radio call position (deviation-bounded), reference codec decodes every transmitted frame",
     "BFS over histories of uplink transactions and Class C listening on both real front-ends; every transaction is explored with every receive outcome and with a fault at each radio call position (bound 1 quick, 2 thorough) from sessions with counters at 0, 16-bit and 32-bit boundaries. A monitor decodes every frame handed to the radio, recovers its 32-bit counter by MIC verification, and requires strict growth (identical retransmission tolerated), payload encryption under the same counter, and expiry instead of wrap.",
@@ -40,11 +40,11 @@ chk("C07", "model_checking", "self-composition (twin devices) explored by explic
 
 chk("C04", "model_checking", "exhaustive one-command-deep value sweep from base states + explicit-state BFS over histories, hang detection via owned fair RNG with draw budget",
     "Layer A: in every region, ABP and OTAA, from five base states, one authentic downlink carrying one MAC command with its full field-value domain (or one JoinAccept with all 256 DLSettings x RxDelay x CFList variants) is delivered to the real device; every distinct resulting snapshot is followed by two uplinks with the first RNG draw enumerated 0..63. Layer B: BFS over histories with commands that shrink the mask, delete channels and change data rate, junk/oversized frames, set_datarate, joins with minimal CFLists and ADR back-off. Every call runs under catch_unwind; the scripted RNG is fair and panics after 4096 draws per call so that a selection loop that cannot exit is a detected hang; async calls must complete under a poll-driven executor.",
-    "Trusted: the mocks and the fair-RNG argument (every low-bit pattern recurs). nb runs the full Layer A domain, the async front-ends a stride of it (shared MAC code). Invalid application arguments are outside the alphabet.",
+    "Trusted: the mocks and the fair-RNG argument (every low-bit pattern recurs). nb runs the full Layer A domain, the async front-ends a stride of it (shared MAC code). Layer C: runs of 150-400 unanswered join attempts per join-bias setting on the fixed plans; Class C idle listening hears junk and oversized frames. Invalid application arguments are outside the alphabet.",
     "DESIGN.md §3 C04")
 
 chk("C10", "exploration", "exhaustive configuration sweep on the real devices against independent regional tables",
-    "Per region and front-end (nb, async, async+Class C) six full sub-products of configurations are installed on a fresh real device through authentic downlinks and set_datarate: every uplink data rate x RX1DROffset 0..7 x first RNG draw (all 64 for 72-channel plans), RXTimingSetupReq 0..15 x board timing x TX end time, all 16 RX2 data-rate values x frequencies, DlChannelReq mappings, joins under join-bias settings, and a data-rate change between TX and the windows. RX1/RX2 RfConfig, the size limit bound to each window, Class C parameters and the requested window times are compared with RP002 tables written independently.",
+    "Per region and front-end (nb, async, async+Class C) eight full sub-products of configurations are installed on a fresh real device through authentic downlinks and set_datarate: every uplink data rate x RX1DROffset 0..7 x first RNG draw (all 64 for 72-channel plans), RXTimingSetupReq 0..15 x board timing x TX end time, all 16 RX2 data-rate values x frequencies, DlChannelReq mappings, joins under join-bias settings, and a data-rate change between TX and the windows. RX1/RX2 RfConfig, the size limit bound to each window, Class C parameters and the requested window times are compared with RP002 tables written independently.",
     "Trusted: refregion.rs (set-valued where RP002 revisions differ; FSK/LR-FHSS entries only require some region-defined LoRa rate). nb offset sign convention accepted either way.",
     "DESIGN.md §3 C10")
 
@@ -84,12 +84,12 @@ chk("C15", "exploration", "exhaustive enumeration of SF x BW x chip variant agai
 
 chk("C18", "exploration", "exhaustive enumeration of environment answers (chip-reported length x offset x status) against the real drivers over datasheet chip models",
     "Behavioural models of SX1262, SX1276 and SX1272 answer every reported length 0..255 x offset (all 256 in thorough) x status after a reception; the real driver fetches the packet through LoRa::rx (single / continuous), LoRa::get_rx_result and the LoRaWAN radio adapter into caller buffers of 0/1/12/64/255/256 bytes surrounded by canaries, in explicit- and implicit-header mode. A returned packet must have the chip-defined length, not exceed the buffer, equal the chip buffer bytes at the reported position (wrapping at 256) and leave the rest of the memory untouched; errors are acceptable; unwinding is not.",
-    "Trusted: chips.rs (buffer/FIFO addressing per datasheet). The async_device level (its own 256-byte buffer) is argued, not exercised.",
+    "Trusted: chips.rs (buffer/FIFO addressing per datasheet). One level up, an async LoRaWAN device with a 64-byte radio buffer receives downlinks of every PHY length 13..133 (everything that fits must be delivered byte for byte).",
     "DESIGN.md §3 C18")
 
 chk("C13", "translation_validation", "exhaustive differential execution of the real driver and Semtech's C reference driver over full parameter products",
     "Crate mc13 links Semtech's SWL2001 C drivers (smtc-modem-cores, from the cargo cache) and the real lora-phy drivers against the same register-file SPI double. Per shared operation the full product of its parameter domain is run on both from the same register state: sleep warm/cold, standby, RF frequency (every 100 Hz LoRaWAN channel in thorough, stride over 137-1020 MHz), modulation parameters SF x BW x CR x all 256 prior register values, packet parameters preamble x header x length 0..255 x CRC x IQ x prior values, all 256 sync words, buffer bases, buffer/FIFO writes of every length, TX/RX/CAD start, IRQ masks per mode, every symbol timeout 0..65535, image calibration per band, PA configuration for every power -128..127 x ramp x prior values, status reads, depth-2 sequences of the read-modify-write operations. SX1261/SX1262/STM32WL: equality of the canonical wire form; SX1272/SX1276 (RFO and PA_BOOST): equality of the chip-visible outcome (register bits stated per operation, FIFO stream). An operation that is never compared (all cases rejected) is a machinery failure.",
-    "Trusted: the C reference as packaged; the datasheet PA/image-calibration tables fed to the reference (SWL2001 leaves them to the BSP); documented errata/policy mirrors listed in DESIGN.md §3 C13 (errata 2.3 with the modulation config, AgcAutoOn forced off, reserved/dead bits written with datasheet defaults).",
+    "Sequences of two operations run on ONE driver instance (state cached inside the driver is visible). Trusted: the C reference as packaged; the datasheet PA/image-calibration tables fed to the reference (SWL2001 leaves them to the BSP); documented errata/policy mirrors listed in DESIGN.md §3 C13 (errata 2.3 with the modulation config, AgcAutoOn forced off, reserved/dead bits written with datasheet defaults).",
     "DESIGN.md §3 C13")
 
 chk("C14", "exploration", "explicit-state BFS over API call sequences of the real driver against datasheet chip models, with deviation-bounded fault and drop injection",
